@@ -10,4 +10,8 @@ PROPS = {
     "C04": dict(pkg="c04", run="^TestC04$", shards=8, timeout_quick=600, timeout_thorough=2400, net=104),
     "C05": dict(pkg="c05", run="^TestC05$", shards=8, timeout_quick=600, timeout_thorough=2400, net=105),
     "C08": dict(pkg="c08", run="^TestC08$", shards=8, timeout_quick=600, timeout_thorough=2400, net=108),
+    "C06": dict(pkg="c06", run="^TestC06$", shards=8, timeout_quick=600, timeout_thorough=2400, net=106),
+    "C09": dict(pkg="c09", run="^TestC09$", shards=8, timeout_quick=600, timeout_thorough=2400, net=109),
+    "C11": dict(pkg="c11", run="^TestC11$", shards=8, timeout_quick=600, timeout_thorough=2400, net=111),
+    "C12": dict(pkg="c12", run="^TestC12$", shards=8, timeout_quick=600, timeout_thorough=2400, net=112),
 }
